@@ -243,6 +243,9 @@ func runSyncer(prop, tier string, r *rng) {
 		burstCase(prop, []int{15, 40, 41, 42})
 		burstCase(prop, nil) // the tail-above-head scenarios
 		startWindowCase(prop)
+	}
+	if prop == "C07" || prop == "C03" {
+		restartSyncCase(prop)
 		for _, b := range []int{1, 2} {
 			slowStoreDelay, slowStoreBatch = 4*time.Millisecond, b
 			prefixOfRangeCase(prop, 10, 20, 3)
@@ -630,4 +633,38 @@ func startWindowCase(prop string) {
 	c3, cancel3 := context.WithTimeout(ctx, time.Second)
 	_ = run2.st.Stop(c3)
 	cancel3()
+}
+
+// restartSyncCase: the SAME Syncer object is stopped and started again (as a node does on a soft restart); a head learned
+// afterwards that is not adjacent to the Store head has to be synced like before the restart.
+func restartSyncCase(prop string) {
+	ctx := context.Background()
+	run := newSyncRun(10)
+	start := func() string {
+		sctx, cancel := context.WithTimeout(ctx, 3*time.Second)
+		defer cancel()
+		if err := run.s.Start(sctx); err != nil {
+			return "err"
+		}
+		return "ok"
+	}
+	s1 := start()
+	v1 := run.gossip("valid", 20)
+	run.quiesce()
+	stop := "ok"
+	if err := run.s.Stop(ctx); err != nil {
+		stop = "err"
+	}
+	s2 := start()
+	v2 := run.gossip("valid", 35)
+	run.quiesce()
+	c, cancel := context.WithTimeout(ctx, time.Second)
+	werr := run.s.SyncWait(c)
+	cancel()
+	emit("%s kind=restartsync heads=20,35 => start=%s stop=%s start2=%s verdicts=%s,%s %s syncwait=%s", prop, s1, stop, s2, v1, v2, run.observe(),
+		map[bool]string{true: "ok", false: "timeout"}[werr == nil])
+	_ = run.s.Stop(ctx)
+	c2, cancel2 := context.WithTimeout(ctx, time.Second)
+	_ = run.st.Stop(c2)
+	cancel2()
 }
